@@ -77,6 +77,21 @@ def adapt_node(
     return target_nodes
 
 
+def _initializers_to_constants(graph: onnx.GraphProto) -> None:
+    input_names = {i.name for i in graph.input}
+    constants = [
+        onnx.helper.make_node("Constant", [], [init.name], value=init)
+        for init in graph.initializer
+        if init.name not in input_names
+    ]
+    if not constants:
+        return
+    nodes = constants + list(graph.node)
+    del graph.initializer[:]
+    del graph.node[:]
+    graph.node.extend(nodes)
+
+
 def adapt_inline(
     node: _Inline,
     protos: List[onnx.NodeProto],
@@ -103,6 +118,9 @@ def adapt_inline(
         target_model = onnx.version_converter.convert_version(
             node.model, target_version
         )
+        # The converter may turn former attributes (like ``pads`` of Pad-10) into graph initializers.
+        # An inlined graph carries none (``inline`` replaced them), so express them as Constant nodes.
+        _initializers_to_constants(target_model.graph)
         base_model = node.model
         try:
             node.model = target_model
